@@ -19,7 +19,13 @@ import (
 	"time"
 )
 
-const verifRoot = "/verif"
+// verifRoot is the checkout the harness belongs to (bin/check exports it).
+var verifRoot = func() string {
+	if v := os.Getenv("VERIF_ROOT"); v != "" {
+		return v
+	}
+	return "/verif"
+}()
 
 // CheckDef describes the monitor set of one property.
 type CheckDef struct {
